@@ -73,6 +73,19 @@ def _wrap(name):
 for _m in _METHODS:
     setattr(SimGenerator, _m, _wrap(_m))
 
+
+def _spawn(self, n_children):
+    """Children stay under the simulator's ownership (numpy's own spawn would hand out plain
+    Generators whose draws are neither recorded nor yield points)."""
+    kids = [SimGenerator(bg, self._hub) for bg in self.bit_generator.spawn(n_children)]
+    if self._hub is not None:
+        for k in kids:
+            self._hub.new_generator(k, "spawned")
+    return kids
+
+
+SimGenerator.spawn = _spawn
+
 _real_default_rng = np.random.default_rng
 _hub_ref: list = [None]
 
